@@ -545,7 +545,11 @@ class MapTypeIO(GraphSONTypeIO):
             itertools.islice(a, 0, None, 2),
             itertools.islice(b, 1, None, 2)
         ):
-            out[reader.deserialize(key)] = reader.deserialize(val)
+            key = reader.deserialize(key)
+            if isinstance(key, bytearray):
+                # blobs deserialize to (unhashable) bytearrays
+                key = bytes(key)
+            out[key] = reader.deserialize(val)
         return out
 
 
@@ -596,7 +600,8 @@ class SetTypeIO(GraphSONTypeIO):
     def deserialize(cls, value, reader=None):
         lst = [reader.deserialize(obj) for obj in value]
 
-        s = set(lst)
+        # blobs deserialize to (unhashable) bytearrays
+        s = set(bytes(obj) if isinstance(obj, bytearray) else obj for obj in lst)
         if len(s) != len(lst):
             log.warning("Coercing g:Set to list due to numerical values returned by Java. "
                         "See TINKERPOP-1844 for details.")
